@@ -42,8 +42,19 @@ def strategy_(draw, tier):
     byval = draw(st.booleans())
     m["funcs"].append({"name": "fnw", "ret": ["b", "int"], "params": [{"name": "p0", "type": ["n", "wt"] if byval else ["p", ["n", "wt"]]}],
                        "variadic": False, "tu": 0, "body": 1})
+    # some interface names are proper prefixes of others (conn_send / conn_send_all): symbol ids must be compared whole
+    ifs = [i for k, i in M.interfaces(m) if i["name"] != "fnw"]
+    for _ in range(draw(st.integers(0, 2))):
+        a, b = S._pick(draw, ifs), S._pick(draw, ifs)
+        if a is not b and a["name"].startswith(("fn", "var")) and b["name"].startswith(a["name"][:2]) and "_" not in b["name"] \
+                and "_" not in a["name"] and ("params" in a) == ("params" in b):
+            b["name"] = a["name"] + S._pick(draw, ["_all", "x", "2", "_"])
     names = [i["name"] for k, i in M.interfaces(m)]
-    used = sorted(set(n for n in names if draw(st.booleans())))
+    if len(set(names)) != len(names):
+        names = None
+    used = sorted(set(n for n in (names or []) if draw(st.booleans())))
+    if names is None:
+        return {"model": m, "mutant": m, "used": [], "muts": [], "target_used": False, "cfg": draw(S.build_config())}
     if not any(n.startswith("fn") for n in used):
         used.append(next(n for n in names if n.startswith("fn")))
     novars = draw(st.integers(0, 3)) == 0
